@@ -15,6 +15,7 @@ import (
 
 	"verif/harness/av"
 	"verif/harness/rec"
+	"verif/harness/refcodec"
 	"verif/harness/vcmp"
 	"verif/harness/zoo"
 )
@@ -294,7 +295,42 @@ func TestC06(t *testing.T) {
 		} else {
 			enc = hessian.NewEncoder(&buf, nm)
 		}
+		// in one case of five the stream is written by another implementation: the reference encoder, one
+		// instance for the whole stream, with its own legal choices (type names and class definitions given once
+		// per stream and referred to from later messages, variable-length lists, hoisted definitions ...). Each
+		// message must then decode to what the Go encoder's own rendering of that value decodes to.
+		byPeer := rapid.IntRange(0, 4).Draw(rt, "writtenByReferenceEncoder") == 0
+		var peerWant []interface{}
+		if byPeer {
+			re := refcodec.NewEncoder(rapidChoices{rt}, refcodec.EncOptions{HoistAnywhere: rapid.Bool().Draw(rt, "hoist"), MaxPadding: 2, MaxChunks: 3})
+			for i, v := range vals {
+				a, perr := zoo.Project(v, nm)
+				if perr != nil {
+					rt.Skip("unrepresentable for the reference encoder")
+				}
+				var gb []byte
+				var w interface{}
+				var gerr error
+				if pv, _ := guard(func() {
+					if gb, gerr = hessian.ToBytes(v, copyNames(nm)); gerr == nil {
+						w, gerr = hessian.ToObject(gb, tm)
+					}
+				}); pv != nil || gerr != nil {
+					rt.Skip("canonical path fails (C01's subject)")
+				}
+				peerWant = append(peerWant, w)
+				re.Top(a)
+				if re.AmbiguousBinary > 0 {
+					rt.Skip("'b' chunk ambiguity")
+				}
+				offsets[i] = re.W.Len()
+			}
+			buf.Write(re.W.Bytes())
+		}
 		for i, v := range vals {
+			if byPeer {
+				break
+			}
 			var err error
 			pv, st := guard(func() {
 				switch {
@@ -342,6 +378,12 @@ func TestC06(t *testing.T) {
 			if rd.pos != offsets[i] {
 				failf(rt, c, "C06 %s: read #%d (%s) consumed up to offset %d, the value ends at %d\n stream: %v", via, i, descs[i], rd.pos, offsets[i], descs)
 			}
+			if byPeer {
+				if cerr := vcmp.EqualValues(peerWant[i], out); cerr != nil {
+					failf(rt, c, "C06 %s: value #%d of %d (%s) of a stream written by the reference encoder decodes differently from the Go encoder's own rendering: %v\n stream: %v\n bytes: %s", via, i, len(vals), descs[i], cerr, descs, hexClip(buf.Bytes(), 300))
+				}
+				continue
+			}
 			if cerr := sess.Equal(v, out); cerr != nil {
 				failf(rt, c, "C06 %s: value #%d of %d (%s) came back different: %v\n stream: %v", via, i, len(vals), descs[i], cerr, descs)
 			}
@@ -382,6 +424,9 @@ func TestC06(t *testing.T) {
 			}
 		}
 		r.Label("api:" + via)
+		if byPeer {
+			r.Label("stream written by the reference encoder")
+		}
 		if rd.max > 0 {
 			r.Label(fmt.Sprintf("reader delivers at most %d octets per Read", rd.max))
 		}
